@@ -47,7 +47,7 @@ def run(E: Engine, rep: Report, tier: str) -> dict:
         if a1 is None or a2 is None:
             rep.violation("SIB", f"estimate-vs-add|{pn}", f"argument '{pn}' is not passed on one side (add: {sh(a1)}, estimate: {sh(a2)})", E.where(est, ce.node))
             continue
-        rep.check(a1 == a2, "SIB", f"estimate-vs-add|{pn}", "same symbolic value on both sides", f"estimate_added_delay and _add compute '{pn}' differently: _add passes {sh(a1, 200)}, the estimate passes {sh(a2, 200)}", E.where(est, ce.node))
+        rep.check(sym.renumber(a1) == sym.renumber(a2), "SIB", f"estimate-vs-add|{pn}", "same symbolic value on both sides", f"estimate_added_delay and _add compute '{pn}' differently: _add passes {sh(a1, 200)}, the estimate passes {sh(a2, 200)}", E.where(est, ce.node))
     # the validated pulse on both sides comes from _validate_and_adjust_pulse(pulse, channel, phase_ref)
     refs = {}
     for f, Sf in ((add, Sadd), (est, Sest)):
